@@ -24,7 +24,8 @@ def rand_model(rng):
     services = rng.random() < 0.25      # several service classes whose methods share a first word (the service lifecycle summary)
     for i in range(rng.choice([2, 3, 4]) if services else rng.choice([1, 2, 3, 4])):
         pk = rng.choice(["p", "q.r"])
-        cn = rng.choice(["A", "StringUtil", "UserService", "OrderService", "MyUtils", "Utility", "Repo", "futile"])
+        # (names that are a utility class AND a service class at once included)
+        cn = rng.choice(["A", "StringUtil", "UserService", "OrderService", "MyUtils", "Utility", "Repo", "futile", "OrderServiceUtils", "UtilServiceLocator"])
         if services:
             cn = ["UserService", "OrderService", "PayService", "MailService"][i]
         fns = []
@@ -202,7 +203,7 @@ def nontrivial(case, mo):
     return bool(mo.get("pairs")) or mo.get("MethodCount", 0) > 0
 
 
-RULE = ("random code models (1-4 classes incl. *Util*/*Service* names, 0-5 methods from a pool of camel-case shapes with acronyms/digits/underscores, "
+RULE = ("random code models (1-4 classes incl. *Util*/*Service* names and names that are both, 0-5 methods from a pool of camel-case shapes with acronyms/digits/underscores, "
         "modifier subsets, Nullable/CheckForNull/IsReturnNull, calls to declared/undeclared/creation/empty-NodeName callees) x {count, evaluate, concept}; "
         "a fifth of the evaluate / concept cases go through the real `coca evaluate` (coca_reporter/evaluate.json) / `coca concept` (printed table); half of the count cases (a quarter in the thorough tier) also run the REAL `coca count -d deps.json` three times in fresh processes; plus ALL 5040 permutations of the 7 modifiers (and the same without static) through evaluate once per run; non-trivial = non-empty report")
 ASSUMPTIONS = ["method names are ASCII (strcase indexes bytes); the oracle's word splitter is an independent reading of strcase.ToDelimited",
